@@ -15,6 +15,8 @@
 (*                         before / after), argsok (the fit was handed the caller's data:       *)
 (*                         same (x, y, weight) triples, weights clipped at 0, x non-decreasing)] *)
 (*                    return [mask, finite]     refuse []                                       *)
+(*                    data [pc, more]: the caller hands OTHER data to the same object (new       *)
+(*                    support counts; at most `more` further fits)                                *)
 (*                                                                                              *)
 (* Mode "records" (Trace_BSplineFit.cfg, INIT RInit / NEXT RNext): single observed calls and    *)
 (* law instances, one TLC state per record, ok = the specification accepts the observation.     *)
@@ -153,10 +155,11 @@ TFit == /\ Ev.a = "fit"
            \/ Ev.st = -1 /\ FitDrop(ToSet(Ev.after))
            \/ Ev.st = -2 /\ FitFail /\ ToSet(Ev.after) = bkmask
            \/ Ev.illcond /\ FitGiveUp(Ev.st, ToSet(Ev.after))
+TData == Ev.a = "data" /\ NewData(Ev.pc, Ev.more) /\ SupportOK([nord |-> prob.nord, S |-> prob.S, pc |-> Ev.pc])
 TReturn == Ev.a = "return" /\ ToSet(Ev.mask) = bkmask /\ Ev.finite /\ Return
 TRefuse == Ev.a = "refuse" /\ Refuse
 TNext == /\ tid > 0 /\ pos <= Len(T.events)
-         /\ (TFit \/ TReturn \/ TRefuse)
+         /\ (TFit \/ TData \/ TReturn \/ TRefuse)
          /\ pos' = pos + 1 /\ UNCHANGED <<i, ok, why, tid>>
          /\ PrintT(<<"C09POS", tid, pos'>>)
 (* the machine's properties hold along every accepted history *)
